@@ -11,7 +11,7 @@
    The event log records every QueueStream.get()/FileStream.get() call and every call of a
    node's transformation function (foreachRDD actions are such functions). *)
 From Coq Require Import String ZArith NArith List Bool.
-Require Import PV.Base.Val PV.Model.DStreamRdd.
+Require Import PV.Base.Val PV.Gen.DStreamStep PV.Model.DStreamRdd.
 Import ListNotations.
 Open Scope Z_scope.
 
@@ -70,12 +70,15 @@ Definition name_in (a : fname) (l : list fname) : bool := existsb (name_eqb a) l
 Definition src_get (k : srckind) (ls : listing) (s : nstate) : qitem * nstate :=
   match k with
   | SQueue one dflt _ =>
-      match queue s with
-      | [] => (match dflt with None => QNone | Some d => QRdd (parallelize d None) end, s)
-      | b :: q' =>
-          if one then (QList b, mkNs (ctime s) (crdd s) q' (fdone s))
-          else (QList (concat (queue s)), mkNs (ctime s) (crdd s) [] (fdone s))
-      end
+      (* branch chosen by the regenerated kernel of QueueStream.get *)
+      let b := queue_get_branch (Z.of_nat (length (queue s))) one in
+      if b =? 0 then (match dflt with None => QNone | Some d => QRdd (parallelize d None) end, s)
+      else if b =? 1 then
+        match queue s with
+        | x :: q' => (QList x, mkNs (ctime s) (crdd s) q' (fdone s))
+        | [] => (QNone, s)      (* get_nowait() on an empty queue: not reached, q_size > 0 here *)
+        end
+      else (QList (concat (queue s)), mkNs (ctime s) (crdd s) [] (fdone s))
   | SFile _ =>
       match filter (fun f => negb (name_in (fst f) (fdone s))) ls with
       | [] => (QNone, s)
@@ -146,8 +149,14 @@ Definition finish (st : state) (i : nat) (t : Z) (v : rv) (e : event) : option s
   | None => None
   end.
 
-(* the `if time_ <= self._current_time: return` guard *)
-Definition guard (t cur : Z) : bool := t <=? cur.
+(* the `if time_ <= self._current_time: return` guard of each class, regenerated from dstream.py *)
+Definition guard (nd : node) (t cur : Z) : bool :=
+  match nd with
+  | Src _ => step_guard_DStream t cur
+  | Trans _ _ => step_guard_TransformedDStream t cur
+  | TransWith _ _ _ => step_guard_TransformedWithDStream t cur
+  | Cogrouped _ _ _ _ => step_guard_CogroupedDStream t cur
+  end.
 
 (* _step(time_) of node i.  None = out of fuel or a dangling reference (neither happens for a
    well-formed graph with fuel > i, see Proofs). *)
@@ -158,7 +167,7 @@ Fixpoint step (fuel : nat) (g : graph) (env : nat -> listing) (t : Z) (i : nat) 
   | S fuel' =>
       match nth_error g i, nth_error (ns st) i with
       | Some nd, Some s =>
-          if guard t (ctime s) then Some st
+          if guard nd t (ctime s) then Some st
           else
             match nd with
             | Src k =>
@@ -434,3 +443,37 @@ Definition spec_hist (g : graph) (h : list (Z * (nat -> listing))) (st : state) 
 
 Definition default_rdd (dflt : option (list val)) : rdd :=
   match dflt with None => empty_rdd | Some d => parallelize d None end.
+
+(* ---------- the RDD-level meaning of each API call: the expression the method body builds,
+   applied to the RDDs its argument streams hold in the interval ---------- *)
+Definition solves (G : graph) (t : Z) (srcv : nat -> rv) (V : list rv) : Prop :=
+  forall i nd, nth_error G i = Some nd -> nth i V RNone = node_val nd t (srcv i) V.
+
+Definition call_sem (c : call) (t : Z) (srcv : rv) (args : list rv) : rv :=
+  let a := nth 0 args RNone in
+  let b := nth 1 args RNone in
+  match c with
+  | CSource _ => srcv
+  | CMap _ f => lift1 (rdd_map f) t a
+  | CFlatMap _ f => lift1 (rdd_flatMap f) t a
+  | CFilter _ p => lift1 (rdd_filter p) t a
+  | CMapValues _ f => lift1 (rdd_mapValues f) t a
+  | CFlatMapValues _ f => lift1 (rdd_flatMapValues f) t a
+  | CReduceByKey _ f => lift1 (rdd_reduceByKey f None) t a
+  | CGroupByKey _ => lift1 (rdd_groupByKey None) t a
+  | CCount _ => lift1 rdd_count_expr t a
+  | CCountByValue _ => lift1 rdd_countByValue_expr t a
+  | CReduce _ f => lift1 (rdd_reduce_expr f) t a
+  | CUnion _ _ => lift2 ctx_union t a b
+  | CCogrouped op np _ _ => cg_apply op np a b
+  | CTransform _ func => func t a
+  | CRepartition n _ => lift1 (repartition_fn n) t a
+  | CSlice b0 e _ => slice_fn b0 e t a
+  | CForeachRDD _ => RNone
+  | CMapPartitions _ f => lift1 (rdd_mapPartitions f) t a
+  | CMapPartitionsWithIndex _ f => lift1 (rdd_mapPartitionsWithIndex f) t a
+  | CTransformWith _ _ func => func t a b
+  end.
+
+(* an RDD value whose class bit is honest: an EmptyRDD instance has no partitions *)
+Definition rdd_ok (r : rdd) : Prop := ecls r = true -> parts r = [].
